@@ -520,6 +520,23 @@ def analyse(unit, gen_path, gen_text, res):
                               id='C08.%s.%s.nopanic@%s' % (unit.id, encl, h)))
             continue
         undecided.append('unattributed verification failure in %s (template code): %s' % (encl, rendered[:600]))
+    # hints: an id 'X#h' is a proof step FOR clause X (its failure is reported as X); a hint with a plain id is an
+    # intermediate fact: if only such hints fail in a function, the proof is broken but no contract clause is
+    # known to fail -> undecided, never a violation.
+    for cid in list(failed.keys()):
+        c = unit.clauses.get(cid)
+        if c is None or c.kind not in ('hint', 'wrap'):
+            continue
+        msgs = failed.pop(cid)
+        if '#' in cid:
+            base = cid.split('#')[0]
+            failed.setdefault(base, [])
+            failed[base] += ['(proof step %s for this clause failed)\n%s' % (cid, m) for m in msgs]
+        else:
+            others = [k for k in failed if unit.clauses.get(k) and unit.clauses[k].fn == c.fn and k != cid
+                      and unit.clauses[k].kind not in ('hint', 'wrap')]
+            if not others:
+                undecided.append('proof hint %s in %s no longer holds and no contract clause fails: %s' % (cid, c.fn, msgs[0][:300]))
     js = res['js']
     if js is None and not res['timeout']:
         undecided.append('verus produced no JSON (rc=%s): %s' % (res['rc'], res['stderr'][:600]))
